@@ -224,6 +224,23 @@ def run_spec_direct(sp):
         if r.volume > r.max_volume * (1 + 1e-12) + 1e-9:
             return [V(f"Container.dilute | over-capacity | {feat}", f"{call}: volume {r.volume} > {r.max_volume}", case)], \
                 (expect, 'returned')
+        # the optional name: the same dilution under a new name, the container it is called on stays what it was, and the
+        # container can be diluted again afterwards exactly as before
+        try:
+            named = c.dilute(solute, cstr, solvent, 'D2')
+            again = c.dilute(solute, cstr, solvent)
+        except Exception as e:  # noqa
+            return [V(f"Container.dilute | named-variant | {feat},raises={type(e).__name__}",
+                      f"{call}: after / with name='D2' the same dilution raises {type(e).__name__}: {e}", case)], (expect, 'returned')
+        if e1.exact_obj(c) != fp:
+            return [V(f"Container.dilute | argument-mutated | {feat},named", f"{call} with name='D2' modified its argument", case)], \
+                (expect, 'returned')
+        if named.name != 'D2' or r.name != c.name or named.contents != r.contents or named.volume != r.volume or \
+                named.max_volume != r.max_volume or again.contents != r.contents:
+            return [V(f"Container.dilute | named-variant | {feat}",
+                      f"{call}: with name='D2' the result is {named.name!r} {e1.contents_key(named, 9)}, without it "
+                      f"{r.name!r} {e1.contents_key(r, 9)}; a second un-named call gives {e1.contents_key(again, 9)}", case)], \
+                (expect, 'returned')
         return [], (expect, 'returned')
     # ---- fill_to ----------------------------------------------------------------------------------------------------
     pf, base = ref.split_unit(sp['u'])
